@@ -175,6 +175,7 @@ fn c20_grouping_hashmap_merged5() {
     std::mem::forget(m);
 }
 
+/// NOT REGISTERED (out of memory under CBMC, see props/C20.py).
 /// Full iteration replayed through FromIterator rebuilds a container with the same visible values
 /// and the same behaviour when the open groups are closed (the structural core of VM checkpointing).
 #[kani::proof]
